@@ -27,6 +27,8 @@ class Naming(object):
             return f'lv {l}'
         if self.scheme == 'structural':
             return f'L{l}'
+        if self.scheme == 'cellid':
+            return 'cell_id' if l == 1 else f'L{l}'      # a level called like the key that holds the cell's identifier
         if self.scheme == 'reversed':
             return f'lev{9 - l}x'
         return 'abcdefghij'[l]
@@ -42,7 +44,7 @@ class Naming(object):
             return f'p{l}n{n}'
         if self.scheme == 'quoted':
             return f'k{n}, "x{l}"'
-        if self.scheme == 'structural':
+        if self.scheme in ('structural', 'cellid'):
             return f'L{l}_n{n}'
         if self.scheme == 'reversed':
             return f'z{99 - n:02d}.{l}'
